@@ -233,7 +233,30 @@ class Program:
             except SyntaxError as e:
                 raise AnalysisError(f"{p.name} does not parse: {e}")
         trees = {}
-        for p in files:
+        cache_file = None
+        if not os.environ.get("SA_NO_NORMALISE") and not os.environ.get("SA_NO_CACHE"):
+            # the normal form depends on the sources and on the normaliser only: the 20 checks of one tree share it through a
+            # scratch cache keyed by both digests (purely an optimisation - a miss or an unreadable entry recomputes)
+            import hashlib, pickle, tempfile
+            h = hashlib.sha256()
+            for p in files:
+                h.update(p.name.encode() + b"\0" + p.read_bytes() + b"\0")
+            here = Path(__file__).resolve().parent
+            for nm in ("normalize.py", "normalize2.py", "index.py"):
+                h.update((here / nm).read_bytes())
+            cdir = Path(os.environ.get("SA_CACHE_DIR") or (Path(tempfile.gettempdir()) / f"basictdf-sa-cache-{os.getuid()}"))
+            cache_file = cdir / (h.hexdigest()[:32] + ".pickle")
+            try:
+                if cache_file.exists():
+                    with open(cache_file, "rb") as fh:
+                        cached = pickle.load(fh)
+                    trees = {stem: (self.src / f"{stem}.py", tree, text) for stem, (tree, text) in cached["trees"].items()}
+                    self.normalised = cached["normalised"]
+            except Exception:
+                trees = {}
+                self.normalised = {}
+        from_cache = bool(trees)
+        for p in ([] if from_cache else files):
             text = p.read_text()
             tree = ast.parse(text, filename=str(p))
             if not os.environ.get("SA_NO_NORMALISE"):
@@ -247,7 +270,7 @@ class Program:
                 except RecursionError as e:  # pragma: no cover
                     raise AnalysisError(f"{p.name}: normalisation failed: {e}")
             trees[p.stem] = (p, tree, text)
-        if not os.environ.get("SA_NO_NORMALISE"):
+        if not os.environ.get("SA_NO_NORMALISE") and not from_cache:
             # a private module-level function that no module of the package names any more (every importer inlined its copy)
             # is dead code of the normal form
             named = set()
@@ -268,6 +291,20 @@ class Program:
                 if dead:
                     tree.body = [st for st in tree.body if not any(st is d for d in dead)]
                     self.normalised.setdefault(stem, {})["dead_private_functions_dropped"] = [d.name for d in dead]
+        if cache_file is not None and not from_cache:
+            try:
+                import pickle
+                cache_file.parent.mkdir(parents=True, exist_ok=True)
+                tmpf = cache_file.with_suffix(f".{os.getpid()}.tmp")
+                with open(tmpf, "wb") as fh:
+                    pickle.dump({"trees": {stem: (tree, text) for stem, (p, tree, text) in trees.items()}, "normalised": self.normalised}, fh, protocol=pickle.HIGHEST_PROTOCOL)
+                os.replace(tmpf, cache_file)
+                # keep the scratch directory small
+                old_files = sorted(cache_file.parent.glob("*.pickle"), key=lambda q: q.stat().st_mtime)
+                for q in old_files[:-40]:
+                    q.unlink(missing_ok=True)
+            except Exception:
+                pass
         for stem, (p, tree, text) in trees.items():
             m = ModuleInfo(stem, p, tree, text)
             self._index_module(m)
